@@ -331,7 +331,7 @@ func c15Canonical(path string) string {
 	return ""
 }
 
-var c15Alphabet = []string{"a", " ", "{", "}", `"`, "`", "\n", "/", "*", `\`, ";", "é", "%"}
+var c15Alphabet = []string{"a", " ", "{", "}", `"`, "`", "\n", "/", "*", `\`, ";", "é", "%", "\u00a0", "\u200d"}
 
 func c15Texts(maxLen int) []string {
 	out := []string{""}
@@ -503,8 +503,8 @@ func runC15(r *ev.Recorder) {
 	r.Note("program_level", map[string]any{"programs_with_comments": cprogs.Load(), "corpus_stride": stride})
 
 	// file level
-	ht := []string{"h1", "h two words", "h\nhmulti", "h {", "// h raw", "/* h block */"}
-	pt := []string{"p1", "Package p does", "p\npmulti", "p }", "// p raw", "/* p block */"}
+	ht := []string{"h1", "h two words", "h\nhmulti", "h {", "// h raw", "/* h block */", "h quoting\n//go:generate hgen", "h box\n/**** hbox"}
+	pt := []string{"p1", "Package p does", "p\npmulti", "p }", "// p raw", "/* p block */", "p quoting\n//go:generate pgen", "p box\n/**** pbox", "p nbsp\u00a0joined\u200dtext"}
 	lists := func(ts []string) [][]string {
 		out := [][]string{nil}
 		for _, a := range ts {
